@@ -55,6 +55,9 @@ func VH_C05_setup() {
 		out += string(rune('A' + sum%26))
 		out += c.URLPath("named", "name", c.Param("name"))
 		out += c.Query("q", "d")
+		// a handler may keep a note in its own request's bind parameters: the map is the request's own
+		out += c.Param("seen")
+		c.Params()["seen"] = "x" + c.Query("q", "d")
 		c.ResponseWriter().Header().Set("X-Tag", "t")
 		if v.tag%2 == 0 {
 			r.PlainText(200, out)
